@@ -14,7 +14,7 @@ var kindWeights = []struct {
 	w int
 }{
 	{"valid", 30}, {"multi-operation", 10}, {"operation-not-found", 9}, {"bad-variable", 9},
-	{"parse-error", 8}, {"unknown-field", 14}, {"no-operation", 6}, {"invalid", 8},
+	{"parse-error", 8}, {"unknown-field", 14}, {"no-operation", 6}, {"invalid", 8}, {"rule-panic", 4},
 }
 
 func pickKind(rng *rand.Rand) string {
@@ -35,8 +35,8 @@ func pickKind(rng *rand.Rand) string {
 var typicalMasks = []int{63, 63, 0b111100, 0b000011, 0b100000, 0b001101, 0b010100, 0b001000, 0b000001, 0b000010}
 
 // GenSession draws a random session: extension list of length 0-3 with
-// arbitrary hook subsets, cache kind, suggestions on/off, direct or HTTP
-// driving, 2-7 steps of 1-3 concurrent requests (at most maxReqs requests).
+// arbitrary hook subsets, cache kind, suggestions on/off, direct driving or
+// one of the real transports, 2-7 steps of 1-3 concurrent requests (at most maxReqs requests).
 func GenSession(rng *rand.Rand, id string, maxReqs int) *Session {
 	if rng.Intn(10) == 0 {
 		return genCacheHistory(rng, id, maxReqs)
@@ -58,7 +58,14 @@ func GenSession(rng *rand.Rand, id string, maxReqs int) *Session {
 		c.CK, c.CN = "lru", 1+rng.Intn(3)
 	}
 	c.Sugg = rng.Intn(2) == 0
-	c.HTTP = rng.Intn(4) == 0
+	c.Impl = GenImpl(rng, c.Exts)
+	c.Tr = "direct"
+	if rng.Intn(5) < 2 {
+		c.Tr = pick(rng, Transports[1:])
+	}
+	// (a subscription over multipart/mixed is not a supported combination: the
+	// closing boundary follows the first response; over GET it is refused)
+	allowSub := c.Tr != "mixed"
 	s := &Session{Cfg: c}
 	total := 0
 	// a session re-uses few query texts so that cache hits, re-adds and
@@ -75,10 +82,7 @@ func GenSession(rng *rand.Rand, id string, maxReqs int) *Session {
 			if len(pool) > 0 && rng.Intn(5) < 2 {
 				o := pick(rng, pool)
 				cp := *o
-				cp.Rej = Rej{K: "none"}
-				if len(c.Exts) > 0 && rng.Intn(8) == 0 {
-					cp.Rej = Rej{K: pick(rng, []string{"pm", "cm"}), I: 1 + rng.Intn(len(c.Exts))}
-				}
+				cp.Gates = GenGates(rng, c.Exts, 6)
 				cp.Resps = nil
 				q = &cp
 				// the same text with another operation name / other variables
@@ -86,7 +90,7 @@ func GenSession(rng *rand.Rand, id string, maxReqs int) *Session {
 					q.Kind, q.OpName = "operation-not-found", "Nope"
 				}
 			} else {
-				q = GenRequest(rng, pickKind(rng), c.Exts, true)
+				q = GenRequest(rng, pickKind(rng), c.Exts, allowSub)
 				pool = append(pool, q)
 			}
 			step = append(step, q)
@@ -95,6 +99,23 @@ func GenSession(rng *rand.Rand, id string, maxReqs int) *Session {
 		s.Steps = append(s.Steps, step)
 	}
 	return s
+}
+
+// GenImpl chooses, for extensions that are a bare gate (only a parameter
+// mutator / only a context mutator), whether gqlgen's own APQ / complexity-
+// limit extension stands in that position (see NewGate).
+func GenImpl(rng *rand.Rand, exts []HookSet) []string {
+	impl := make([]string, len(exts))
+	apq := false
+	for i, e := range exts {
+		switch {
+		case e == HookSet{PM: true} && !apq && rng.Intn(2) == 0:
+			impl[i], apq = "apq", true
+		case e == HookSet{CM: true} && rng.Intn(2) == 0:
+			impl[i] = "complexity"
+		}
+	}
+	return impl
 }
 
 // Class is the evidence class of an executed request: kind, rejection,
@@ -108,11 +129,16 @@ func (s *Session) Classes() []string {
 				conc = "conc"
 			}
 			ck := s.Cfg.CK
-			mode := "direct"
-			if s.Cfg.HTTP {
-				mode = "http"
+			mode := s.Cfg.Transport()
+			out = append(out, fmt.Sprintf("%s/gates=%s/%s/%s/sugg=%v/exts=%d/%s", q.Kind, q.GatePlan(), ck, conc, s.Cfg.Sugg, len(s.Cfg.Exts), mode))
+			if f := q.Fate(s.Cfg.Exts, mode); f == "panicked" {
+				out = append(out, fmt.Sprintf("gate-panic/%s/%s/%s/%s", q.Kind, q.GatePlan(), mode, conc))
 			}
-			out = append(out, fmt.Sprintf("%s/rej=%s/%s/%s/sugg=%v/exts=%d/%s", q.Kind, q.Rej.K, ck, conc, s.Cfg.Sugg, len(s.Cfg.Exts), mode))
+			for _, g := range q.Gates {
+				if g.I >= 1 && g.I <= len(s.Cfg.Impl) && s.Cfg.Impl[g.I-1] != "" {
+					out = append(out, fmt.Sprintf("real-gate/%s/%s/%s", s.Cfg.Impl[g.I-1], g.O, mode))
+				}
+			}
 			if q.Rule != "" {
 				out = append(out, fmt.Sprintf("rule=%s/%s/%s/%s/sugg=%v", q.Rule, q.Kind, ck, conc, s.Cfg.Sugg))
 			}
@@ -175,7 +201,7 @@ func otherOpName(query, first string) string {
 // of the same text (a second time under another operation name) and
 // concurrently with others; the valid near-misses of the same rules are sent
 // first and repeated (cache hit) too. variant varies extension lists and the
-// driving mode (direct / HTTP).
+// driving mode (direct / a real transport).
 func GenRuleSweep(rng *rand.Rand, variant int) []*Session {
 	var out []*Session
 	caches := []Config{{CK: "none"}, {CK: "map"}, {CK: "lru", CN: 1}, {CK: "lru", CN: 2}}
@@ -184,7 +210,7 @@ func GenRuleSweep(rng *rand.Rand, variant int) []*Session {
 		near[fmt.Sprint(d.QOnly)+d.Rule] = append(near[fmt.Sprint(d.QOnly)+d.Rule], d)
 	}
 	mk := func(d RuleDoc, kind string) *Request {
-		q := &Request{Kind: kind, Rej: Rej{K: "none"}}
+		q := &Request{Kind: kind, Gates: []Gate{}}
 		q.FromRuleDoc(d)
 		return q
 	}
@@ -205,7 +231,10 @@ func GenRuleSweep(rng *rand.Rand, variant int) []*Session {
 					}
 					c := Config{ID: fmt.Sprintf("rules%d-%v-%v-%d-%d", variant, qonly, sugg, ci, i/3), Rules0: []string{"FOCT"},
 						CK: cc.CK, CN: cc.CN, Sugg: sugg, QOnly: qonly, Exts: []HookSet{}}
-					c.HTTP = (variant+ci+i/3)%4 == 3
+					c.Tr = "direct"
+					if (variant+ci+i/3)%4 == 3 {
+						c.Tr = []string{"post", "get", "sse", "ws", "form", "post"}[(variant+ci+i/3)/4%6]
+					}
 					for k, n := 0, 1+rng.Intn(2); k < n; k++ {
 						c.Exts = append(c.Exts, HookSetOf(pick(rng, typicalMasks)))
 					}
